@@ -46,10 +46,7 @@ ASSUMPTIONS = ['asyncio.gather(return_exceptions=True) is a modelled primitive (
                'CancelledError (a BaseException-only class of the forest), a cancelled task having the fixed identity 997 '
                'because 3.12 tasks drop the cancel message; awaitables that themselves raise CancelledError / '
                'KeyboardInterrupt / SystemExit (treated specially by asyncio tasks) and subclasses of CancelledError '
-               'stay outside',
-               'class forests number every class after its parent (forest_ok; the driver builds each class from its '
-               'parent class object, so it cannot build another kind): hypothesis of monitor_sound, '
-               'isinstance_is_ancestor, raise_first_over_hierarchy']
+               'stay outside']
 TRUSTED = ['harness/props/C20.py driver + harness/vloop.py (virtual time) and coq/theories/Case_C20.v (agree/ok)',
            'modelled, not verified: asyncio.gather, Task/Future completion, isinstance over single-inheritance classes']
 ALLOWED_AXIOMS = []
@@ -462,7 +459,7 @@ def distribution(cases, obs):
 
 LEVEL_TEXT = ('gather_excs / raise_first_exc are modelled on top of an explicit machine for '
               'asyncio.gather(return_exceptions=True) driven by the finishing schedule (coq/theories/Gather.v); '
-              'props/C20.v proves (14 theorems) for ALL awaitable lists, delays, call ticks, isinstance relations and '
+              'props/C20.v proves (15 theorems) for ALL awaitable lists, delays, call ticks, isinstance relations and '
               'finishing orders: the yields are exactly the failures that are instances of `only`, in input order '
               '(gather_excs_spec, expected_membership); every awaitable has completed (none cancelled or skipped) no later '
               'than the first yield (all_completed_before_first_yield) and, for every completion order, ends with ITS OWN '
@@ -470,15 +467,15 @@ LEVEL_TEXT = ('gather_excs / raise_first_exc are modelled on top of an explicit 
               '(each_completes_with_its_own_outcome, completion_log_independent_of_outcomes); the yields do not depend on '
               'delays / finishing order; raise_first_exc raises the first of them or returns None (raise_first_spec), and '
               'over a class forest exactly the first failure whose class has `only` as itself-or-ancestor, '
-              'BaseException-only branches included (isinstance_is_ancestor, raise_first_over_hierarchy).  The trace '
+              'BaseException-only branches included (isinstance_is_ancestor — the fuelled walk is the ancestor relation for every '
+              'parent list —, raise_first_over_hierarchy).  The trace '
               'monitor is proved complete w.r.t. the model (monitor_accepts_model) and sound AND complete w.r.t. a '
               'model-free readable statement about the observed trace alone (monitor_sound, monitor_sound_converse, '
-              'selected_unique).  Tied to /repo by running the real functions on a virtual-time loop for every outcome '
+              'selected_unique; model_satisfies_statement: the model\'s own trace satisfies it).  Tied to /repo by running the real functions on a virtual-time loop for every outcome '
               'list x every weak ordering of finishing times (short lists), script-cancelled tasks/futures, and random '
               'longer ones, comparing the whole observation with the model inside Coq.')
 LEVEL_NOTE = ('trusted: Coq kernel + vm_compute; no axioms (closed under the global context); asyncio.gather and task '
-              'completion are modelled primitives validated only by the correspondence runs; the forest theorems assume '
-              'forest_ok (parents numbered before children; true by construction of the driver); harness/props/C20.py, '
+              'completion are modelled primitives validated only by the correspondence runs; harness/props/C20.py, '
               'harness/vloop.py, coq/theories/Case_C20.v')
 TECHNIQUE = ('Coq proof (invariant of the gather machine over arbitrary finishing schedules, induction; monitor '
              'soundness/completeness against a relational statement) + differential correspondence on a virtual-time '
